@@ -82,7 +82,11 @@ FirstPage(c) == c.start + 1
 \* it is last; with a caller-supplied state exactly one page is fetched
 LastWanted(c) == IF c.mode = "manual" THEN FirstPage(c) ELSE NPages(c)
 FailHit(c) == c.fail >= FirstPage(c) /\ c.fail <= LastWanted(c)
-LastAsked(c) == IF FailHit(c) THEN c.fail ELSE LastWanted(c)
+\* How a page fails: the node answers its request with an error - or (scenarios with the field fkind = "lost":
+\* queries pinned to one connection, Conn.query) that connection is lost before the page is asked for: the
+\* request is never made, the fetch fails all the same, and nobody else is asked with this node's paging state
+Lost(c) == "fkind" \in DOMAIN c /\ c.fkind = "lost"
+LastAsked(c) == IF FailHit(c) THEN (IF Lost(c) THEN c.fail - 1 ELSE c.fail) ELSE LastWanted(c)
 
 \* the request for page p carries the token page p-1 returned (the caller's for the first)
 ExpReqs(c) == [j \in 1 .. LastAsked(c) - FirstPage(c) + 1 |-> FirstPage(c) + j - 2]
@@ -135,6 +139,9 @@ ReqVerdict(c, o) ==
   LET exp == ExpReqs(c)
       j == FirstBad(o.reqs, exp) IN
   IF j = 0 THEN "none"
+  \* a negative token: not a paging state this node issued to this iteration (undecodable, another iteration's,
+  \* another node's) - never what "the previous page carried"
+  ELSE IF \E i \in 1 .. Len(o.reqs) : o.reqs[i] < 0 THEN "request-state-wrong"
   ELSE IF \E i \in 1 .. j - 1 : o.reqs[i] = o.reqs[j] THEN "page-requested-twice"
   ELSE IF j > Len(exp) THEN (IF c.mode = "manual" THEN "manual-extra-request"
                              ELSE IF FailHit(c) THEN "request-after-failed-fetch"
@@ -229,9 +236,11 @@ FetchOnceF(c, s) ==
   IF /\ s.nx = "armed"
      /\ \/ s.st \in {"run", "abandoned"} /\ s.async
         \/ s.st = "run" /\ ~Stopped(c, s) /\ s.pos >= NRows(c, s.cur)
-  THEN {[s EXCEPT !.nx = "fetching",
-                  !.reqs = Append(@, [tok |-> TokOfCur(c, s),
-                                      tmpl |-> IF Len(s.reqs) = 0 THEN "Q" ELSE s.reqs[1].tmpl])]}
+  THEN IF Lost(c) /\ PageOfTok(TokOfCur(c, s)) = c.fail
+       THEN {[s EXCEPT !.nx = "error", !.nxp = c.fail]}     \* the pinned connection is gone: no request, the fetch fails
+       ELSE {[s EXCEPT !.nx = "fetching",
+                       !.reqs = Append(@, [tok |-> TokOfCur(c, s),
+                                           tmpl |-> IF Len(s.reqs) = 0 THEN "Q" ELSE s.reqs[1].tmpl])]}
   ELSE {}
 
 \* the node serves the page the token names, or fails it
